@@ -41,10 +41,20 @@ ASSUMPTIONS = [
     "SIMPLE scalar image: String/ID -> str, Int -> int, Float -> float, Boolean -> bool (README)",
 ]
 SCALAR_IMAGE = {"String": str, "ID": str, "Int": int, "Float": float, "Boolean": bool}
+# a custom scalar CONFIGURED with a builtin type (no parse / serialize, no import needed): its image is that type
+CONFIGURED_IMAGE = {"DateTime": str, "JSONish": str, "Money": str}
 
 
 def budget(tier):
     return {"examples": 400 if tier == "quick" else 6000, "timeout": 240.0}
+
+
+def _configure(dd, desc):
+    """half of the projects map their custom scalars to str (the reference server then answers strings for them)"""
+    if desc.scalars and dd.bool(0.5):
+        dd.tag("cfg.scalars_configured_builtin")
+        return {"scalars": {n: {"type": "str"} for n in desc.scalars}}, {}
+    return {}, {}
 
 
 def strategy(tier):
@@ -52,7 +62,7 @@ def strategy(tier):
         calls_per_op=2 if tier == "quick" else 5,
         doc_kw={"n_ops": (1, 3), "n_frags": (0, 3)},
         schema_kw={"defaults": 0.1},
-        ops_kw={"directive_p": 0.2},
+        ops_kw={"directive_p": 0.2}, config_desc_fn=_configure,
         # KF-C01-10 (fields inside a conditional inline fragment / spread stay required) is open; C05 still draws
         # such fragments and exempts exactly the keys whose conditionality comes from the fragment's directive
         force_features=("sel.directive_on_inline", "sel.directive_on_spread"),
@@ -291,6 +301,9 @@ class Image:
             elif named.name in self.scalars_any:
                 if inner is not typing.Any:
                     self.fail(f"{where}: {inner} is not Any for unconfigured custom scalar {named.name}", "leaf_mismatch")
+            elif named.name in CONFIGURED_IMAGE:
+                if inner is not CONFIGURED_IMAGE[named.name]:
+                    self.fail(f"{where}: {inner} is not {CONFIGURED_IMAGE[named.name].__name__}, the configured type of {named.name}", "leaf_mismatch")
             return
         # composite
         classes = leaf_classes(inner)
@@ -332,7 +345,8 @@ def run_case(case, scratch):
     if case.get("rejected"):
         return {"rejected": case["rejected"]}
     feats = case["features"]
-    sess = e2e.Session(case, scratch)
+    configured = set((case["config"].get("scalars") or {}))
+    sess = e2e.Session(case, scratch, server_kw={"scalar_values": {n: ["s1", "s2", ""] for n in configured}} if configured else None)
     if sess.failure:
         return {"failures": [sess.failure], "units": 1, "features": feats}
     schema = build_schema(case["sdl"])
